@@ -18,6 +18,14 @@ Decides:
       removes/inserts in update_indexes_for_update is decided by a comparison of exactly the two keys it files under;
  (R6) IndexData::multi_lookup / prefix_multi_lookup sort the probe values before probing (callers treat the result
       as being in key order when the index serves ORDER BY);
+ (R8) NULL keys and range predicates: an index keeps NULL keys before all values, and `col < x` / `col <= x` is not TRUE
+      for NULL.  (a) IndexData::range_scan: every loop that collects row ids from a BTreeMap range whose lower bound can
+      be Unbounded contains a skip path decided by the discriminant of a key element (the NULL test); (b) the executor
+      takes an index range scan as the whole WHERE clause (need_where_filter = false / !satisfied) only where a test
+      of the range's `start` bound says it is present;
+ (R9) bounds over a multi-column index are approximations ([v] against keys [v, x]): the executor never takes a scan over a
+      multi-column index as the whole WHERE clause - every definition that clears need_where_filter while a WHERE clause
+      exists is decided by a test on the number of index columns;
  (R7) a bound of a RangePredicate never travels without its inclusiveness flag: every write to .start / .end of an
       existing RangePredicate is accompanied, under the same conditions, by a write to .inclusive_start / .inclusive_end.
 Does NOT decide bound arithmetic (inclusive/exclusive, increments), NULL keys, cost model."""
@@ -301,6 +309,122 @@ def extra_rules(ctx):
                         'before the lookups): the rows come back in list order, but execute_index_scan reports them as sorted by the index key', g_.loc)
 
     range_pairing_rule(ctx, 'C02.R7')
+    null_key_rule(ctx)
+
+
+def null_key_rule(ctx):
+    from ..engine.cfg import cfg, defs_of
+    from ..engine.paths import loop_headers
+    from ..engine.linear import Encoder
+    from . import shared
+    prog = ctx.prog
+    ctx.rule('C02.R8', '(a) IndexData::range_scan: loops over a BTreeMap range whose lower bound can be Unbounded skip keys on a test of a key element\'s SqlValue '
+             'discriminant; (b) execute_index_scan: need_where_filter is cleared / set from the "fully satisfied" answer only under a test of the range\'s start bound')
+    SVT = 'vibesql_types::sql_value::SqlValue'
+    rs = [f for f in prog.fns.values() if f.unit == 'vibesql_storage' and not f.is_closure() and f.dk != 'Promoted' and not is_test(f)
+          and re.search(r'IndexData>::range_scan$', f.nice)]
+    ctx.require(len(rs) == 1, 'IndexData::range_scan not found')
+    f = rs[0]
+    g = cfg(f); s = Sym(f); enc = Encoder(prog, f)
+    nloops = 0
+    for h, (sw, none_t) in loop_headers(f).items():
+        root = s.op(f.blocks[h]['t']['args'][0])
+        m = re.search(r'range\(.*?, tuple\((.*)\)\)\)$', root)
+        if not m:
+            continue
+        body = shared._body(enc, h)
+        ext = [i for i in body if f.blocks[i]['t']['k'] == 'call' and (callee_name(f.blocks[i]['t']) or '').endswith('::extend')]
+        if not ext:
+            continue
+        first_alt = _split_top(m.group(1))[0]
+        if 'Unbounded()' not in first_alt:
+            continue        # the lower bound of this loop is always a value (equality prefix scan)
+        nloops += 1
+        skip = False
+        for b in body:
+            t = f.blocks[b]['t']
+            if t['k'] != 'switch':
+                continue
+            reads_sv = any('d' in st and st['v']['r'] == 'discr' and SVT in str(st['v'].get('t')) for st in f.blocks[b]['s'])
+            if not reads_sv:
+                continue
+            for x in g.succ[b]:
+                # a successor from which the loop head is reached again without passing an extend
+                reach = g.reach_from([x], removed=set(ext))
+                if h in reach:
+                    skip = True
+        ctx.instance(f'R8/range_scan/loop@{nloops}', {'rule': 'C02.R8', 'range': root[:100], 'null_keys_skipped': skip})
+        if not skip:
+            ctx.finding(f'R8/range_scan/loop@{nloops}', 'IndexData::range_scan collects every key of a range without a lower bound: the NULL keys (they sort before all '
+                        'values) are returned for `col < x` / `col <= x`, so an index on col adds the NULL rows to the result', f'{f.file}:{f.blocks[h]["t"]["l"]}')
+    ctx.floor('C02.R8 range loops with a possibly unbounded start', nloops, 2)
+
+    ex = [x for x in prog.fns.values() if x.unit == 'vibesql_executor' and not x.is_closure() and not is_test(x) and x.nice.endswith('index_scan::execution::execute_index_scan')]
+    ctx.require(len(ex) == 1, 'execute_index_scan not found')
+    e = ex[0]
+    se = Sym(e); ge = cfg(e); de = defs_of(e)
+    nwf = [l for l, n in e.names.items() if n == 'need_where_filter']
+    ctx.require(len(nwf) == 1, 'execute_index_scan: need_where_filter not found')
+    bad = []
+    ndefs = 0
+    for d in de.get(nwf[0], []):
+        blk, kind, v = d[0], d[1], d[2]
+        if kind != 'assign':
+            continue
+        clears = (v['r'] == 'use' and isinstance(v['a'], dict) and v['a'].get('t') == 'bool' and v['a'].get('v') == 0) or (v['r'] == 'un' and v.get('op') == 'Not')
+        if not clears:
+            continue
+        ndefs += 1
+        # with a WHERE clause present: the definition must be guarded by a test on the start bound
+        conds = shared.deciding_conditions(e, blk, se)
+        if any(c == 'discr(where_clause)' and val == '0' for c, val in conds):
+            continue                    # no WHERE clause at all
+        guarded = False
+        for sb in shared.deciding_switches(e, blk):
+            l, nm = shared.named_root(e, de, e.blocks[sb]['t']['on'])
+            if l is None:
+                continue
+            for dd in de.get(l, []):
+                if dd[1] == 'assign':
+                    cs = shared.deciding_conditions(e, dd[0], se)
+                    if any(re.search(r'\.start\b', c) for c, _v in cs):
+                        guarded = True
+        if not guarded:
+            bad.append(blk)
+    # R9: the same definitions are decided by a test on the width of the index
+    bad9 = []
+    for d in de.get(nwf[0], []):
+        blk, kind, v = d[0], d[1], d[2]
+        if kind != 'assign':
+            continue
+        clears = (v['r'] == 'use' and isinstance(v['a'], dict) and v['a'].get('t') == 'bool' and v['a'].get('v') == 0) or (v['r'] == 'un' and v.get('op') == 'Not')
+        if not clears:
+            continue
+        conds = shared.deciding_conditions(e, blk, se)
+        if any(c == 'discr(where_clause)' and val == '0' for c, val in conds):
+            continue
+        width_tested = False
+        for sb in shared.deciding_switches(e, blk):
+            c = shared.switch_condition(e, sb, se)
+            if re.search(r'len\(.*\.columns\)', c):
+                width_tested = True
+            l, nm = shared.named_root(e, de, e.blocks[sb]['t']['on'])
+            for dd in de.get(l, []) if l is not None else []:
+                if dd[1] == 'assign' and re.search(r'len\(.*\.columns\)', se.op(dd[2].get('a', dd[2])) if isinstance(dd[2].get('a'), dict) else ''):
+                    width_tested = True
+            if nm == 'is_multi_column_index':
+                width_tested = True
+        if not width_tested:
+            bad9.append(blk)
+    ctx.instance('R9/execute_index_scan', {'rule': 'C02.R9', 'definitions_that_skip_the_where_clause': ndefs, 'not_decided_by_index_width': len(bad9)})
+    if bad9:
+        ctx.finding('R9/execute_index_scan/multi-column', 'execute_index_scan can take a scan over a multi-column index as the whole WHERE clause: its one-element bounds are '
+                    'approximations for keys [v, x] (index (s, k): WHERE s > \'a\' also returns s = \'a\')', f'{e.file}:{e.blocks[bad9[0]]["t"].get("l", e.line)}')
+    ctx.instance('R8/execute_index_scan', {'rule': 'C02.R8', 'definitions_that_skip_the_where_clause': ndefs, 'unguarded': len(bad)})
+    ctx.floor('C02.R8 definitions of need_where_filter that can skip the WHERE clause', ndefs, 2)
+    if bad:
+        ctx.finding('R8/execute_index_scan', 'execute_index_scan takes an index range scan as the whole WHERE clause without looking at the lower bound of the range: for '
+                    '`col < x` the scan starts at the NULL keys and the rows with a NULL col are returned', f'{e.file}:{e.blocks[bad[0]]["t"].get("l", e.line)}')
 
 
 def range_pairing_rule(ctx, rid='C02.R7'):
